@@ -459,7 +459,8 @@ fn build_enum(
             impl #name_ident {
                 #visibility unsafe fn get() -> Self {
                     unsafe {
-                        *(#address as *const Self)
+                        // `read`, not `*`: the enum is only `Copy` when declared `copyable`
+                        ::std::ptr::read(#address as *const Self)
                     }
                 }
             }
